@@ -504,3 +504,16 @@ mod tests {
         assert_eq!(rel, expected);
     }
 }
+
+/// Verification-only: the real `capture_stream` over a caller-supplied reader (chosen chunkings).
+/// Returns the preview lines and the capture's artifacts JSON.
+#[cfg(rip_verif)]
+pub(super) async fn verif_capture_stream(
+    stream: Box<dyn AsyncRead + Unpin + Send>,
+    config: &BuiltinToolConfig,
+    max_preview_bytes: usize,
+) -> (Vec<String>, serde_json::Value) {
+    let capture = capture_stream(Some(stream), config, max_preview_bytes).await;
+    let json = capture.as_json();
+    (capture.preview_lines, json)
+}
